@@ -40,10 +40,27 @@ theorem search_eq (n : Nat) (f : Nat → R Bool) (g : Nat → Bool) (h : ∀ k, 
     search n f = .ok (goSearch n g) :=
   searchAux_eq f g (n + 1) 0 n (by omega) (fun k _ hk => h k hk)
 
+/-- the result of `sort.Search` lies in `[i, j]` for ANY predicate (no monotonicity needed) -/
+theorem goSearchAux_bounds (f : Nat → Bool) (i j : Nat) (h : i ≤ j) :
+    i ≤ goSearchAux f i j ∧ goSearchAux f i j ≤ j := by
+  fun_induction goSearchAux f i j with
+  | case1 i j hij m hm ih => have := ih (by simp only [m]; omega); constructor <;> (simp only [m] at *; omega)
+  | case2 i j hij m hm ih => have := ih (by simp only [m]; omega); constructor <;> (simp only [m] at *; omega)
+  | case3 i j hij => omega
+
+theorem goSearch_le (n : Nat) (f : Nat → Bool) : goSearch n f ≤ n := (goSearchAux_bounds f 0 n (Nat.zero_le _)).2
 
 /-- `*epochOffset` -/
 def encEpoch (e : Nat × Int) : Val := .struct [("leaderEpoch", .int e.1), ("startOffset", .int e.2)]
 /-- `*leaderEpochCache` (the fields the translated functions touch) -/
 def encCache (c : Epochs) : Val := .struct [("epochOffsets", .list (c.map encEpoch))]
+
+/-- `*segment`: the fields and accessor methods the translated functions read (an accessor method such
+as `seg.NextOffset()` is answered by the field of that name, see GoMini) -/
+def encSeg (s : Seg) : Val :=
+  .struct [("BaseOffset", .int s.base), ("NextOffset", .int s.nextOffset), ("MessageCount", .int s.count),
+           ("Position", .int s.position), ("lastWriteTime", .int s.lastTs)]
+
+theorem encSeg_ne_nil (s : Seg) : isNil (encSeg s) = false := rfl
 
 end Liftbridge.GoCode
